@@ -174,6 +174,17 @@ class SimSource(object):
 
     next = __next__
 
+    hinted = False
+
+    def __length_hint__(self):
+        # an input that can tell how many values remain (as lists and ranges can); an
+        # infinite one keeps saying "one more"
+        if not self.hinted:
+            return NotImplemented
+        if self.n is None:
+            return 1
+        return max(self.n - self.pulls, 0)
+
     def alive(self):
         n = 0
         for r in self.weak:
@@ -459,6 +470,23 @@ class Unprintable(object):
 
     def _sim_summary(self):
         return ("Unprintable", self.n)
+
+
+class NoEq(object):
+    """a foreign object that refuses comparison (as an array refuses a truth value for ==);
+    passing it on must not compare it"""
+
+    def __init__(self, n):
+        self.n = n
+        self.payload = {"n": n}
+
+    def __eq__(self, other):
+        raise ValueError("the truth value of a comparison with this object is ambiguous")
+
+    def __ne__(self, other):
+        raise ValueError("the truth value of a comparison with this object is ambiguous")
+
+    __hash__ = object.__hash__
 
 
 class RaisesAt(object):
